@@ -232,7 +232,7 @@ def run_shard(ctx: Ctx) -> None:
         if msg:
             raise Violation(msg, {"tree_pickle": pickle_b64(tree), "neg_pickle": pickle_b64(neg), "files": files})
 
-    hyp_run(ctx, case(), body, ctx.n(2000, 40000))
+    hyp_run(ctx, case(), body, ctx.n(4000, 40000))
 
 
 def replay(c: Dict[str, Any]) -> Optional[str]:
